@@ -431,6 +431,10 @@ func (x *Exec) unop(st *State, ins *ssa.UnOp) SVal {
 			x.unsupp(st, "load through untracked pointer %s in %s at %s", ins.X.Name(), funcKey(ins.Parent()), x.pos(ins.Pos()))
 			return mkU("nil")
 		}
+		if v.NilC != "" {
+			x.obl(st, "nopanic/nil", "(not "+v.NilC+")", "no nil pointer is dereferenced", ins.Pos())
+			st.assume("(not " + v.NilC + ")")
+		}
 		if strings.HasPrefix(v.Loc, "elem:") {
 			loc, fields := v.Loc, ""
 			if i := strings.Index(loc, "##"); i >= 0 {
